@@ -2,6 +2,7 @@ use std::collections::{HashMap, HashSet};
 use std::convert::TryInto;
 use std::fs;
 use std::fs::File;
+use std::io;
 use std::io::Write;
 use std::ops::Deref;
 use std::path::{Path, PathBuf};
@@ -396,14 +397,31 @@ impl OcflRepo {
         self.ensure_open()?;
 
         let inventory = self.get_staged_inventory(object_id)?;
-        let content_path = inventory.content_path_for_logical_path(path, VersionRef::Head)?;
+        // Fails with NotFound when the path is not part of the staged version
+        inventory.content_path_for_logical_path(path, VersionRef::Head)?;
 
-        let version_prefix = format!("{}/", inventory.head);
+        let staged_content_path =
+            match lookup_staged_digest_and_content_path(&inventory, inventory.head, path)? {
+                Some((_, content_path)) => Some(content_path),
+                None => {
+                    // After a failed commit the staged inventory is already deduplicated, in which
+                    // case the content may be staged under the content path of another file
+                    let version_prefix = format!("{}/", inventory.head);
+                    inventory
+                        .head_version()
+                        .lookup_digest(path)
+                        .and_then(|digest| inventory.content_paths(digest))
+                        .and_then(|paths| paths.iter().find(|p| p.starts_with(&version_prefix)))
+                        .cloned()
+                }
+            };
 
-        if content_path.starts_with(&version_prefix) {
+        if let Some(content_path) = staged_content_path {
             // The content exists in staging
-            self.get_staging()?
-                .get_object_file(object_id, path, VersionRef::Head, sink)
+            let mut storage_path = PathBuf::from(&inventory.storage_path);
+            storage_path.push(content_path.as_path());
+            io::copy(&mut File::open(storage_path)?, sink)?;
+            Ok(())
         } else {
             // The content exists in the main repo. The logical path may be new or changed in the
             // staged version, so the content is located through a committed version that
@@ -1522,21 +1540,22 @@ fn lookup_staged_digest_and_content_path(
     src_version_num: VersionNum,
     src_path: &LogicalPath,
 ) -> Result<Option<(HexDigest, Rc<ContentPath>)>> {
-    let staging_prefix = format!("{}/", inventory.head);
-
     match inventory
         .get_version(src_version_num)?
         .lookup_digest(src_path)
     {
         Some(digest) => {
-            let content_path =
-                inventory.content_path_for_digest(digest, VersionRef::Head, Some(src_path))?;
-
-            if content_path.starts_with(&staging_prefix) {
-                Ok(Some((digest.as_ref().clone(), content_path.clone())))
-            } else {
-                Ok(None)
+            // Only a file that was added in the staged version has its content in staging, where it
+            // is stored at the content path that maps directly to its logical path. Any other
+            // content path of the same digest may belong to a different file or an earlier version.
+            if src_version_num == inventory.head {
+                let content_path = inventory.new_content_path(src_path);
+                if inventory.digest_for_content_path(&content_path) == Some(digest) {
+                    return Ok(Some((digest.as_ref().clone(), Rc::new(content_path))));
+                }
             }
+
+            Ok(None)
         }
         None => Err(RocflError::IllegalState(format!(
             "Failed to find digest for {}",
